@@ -175,10 +175,38 @@ REJECTS = [
      lambda p, tr: tr.add_descriptor(A._mk_metric_descriptor(p, A.NEW, A.CH),
                                      state_container=p.mdib.states.descriptor_handle.get_one(A.NUM1).mk_copy())),
     ('descriptor:write_entity-twice', 'descriptor_transaction', lambda p, tr: (tr.write_entity(_ent_descr(p, A.CH)), tr.write_entity(_ent_descr(p, A.CH)))),
+    ('context:write_entity(new+unknown-handle)', 'context_state_transaction', lambda p, tr: _write_new_and_unknown(p, tr)),
+    ('context:write_entity(changed+unknown-handle)', 'context_state_transaction', lambda p, tr: _write_changed_and_unknown(p, tr)),
+    ('descriptor:add_descriptor(state-of-other-descriptor)+swallow', 'descriptor_transaction',
+     lambda p, tr: tr.add_descriptor(A._mk_metric_descriptor(p, A.NEW, A.CH),
+                                     state_container=p.mdib.states.descriptor_handle.get_one(A.NUM2).mk_copy())),
 ]
+# rejected calls that consist of one API call: besides letting the exception abort the transaction, the application may
+# catch it inside the transaction body and carry on - then the rejected call must have had no effect at all on what is
+# committed (reference: the same transaction without the call)
+MULTI_CALL_REJECTS = {'metric:get_state-twice', 'context:get_context_state-twice', 'descriptor:get_descriptor-twice',
+                      'descriptor:remove-then-get', 'descriptor:get_state(context)', 'descriptor:write_entity-twice'}
+
+
+def _write_new_and_unknown(p, tr):
+    ent = p.mdib.entities.by_handle(A.PAT)
+    st = ent.new_state('verif.new.ctx')
+    st.CoreData.Givenname = 'New'
+    tr.write_entity(ent, ['verif.new.ctx', 'nope'])
+
+
+def _write_changed_and_unknown(p, tr):
+    ent = p.mdib.entities.by_handle(A.PAT)
+    h = sorted(ent.states)[0]
+    ent.states[h].CoreData.Givenname = 'Changed'
+    tr.write_entity(ent, [h, 'nope'])
 
 # calls that are accepted by the API; whatever happens, the transaction must be all-or-nothing
 ALL_OR_NOTHING = [
+    ('descriptor:add_state(context-state-handle-that-exists-in-mdib)', 'descriptor_transaction',
+     lambda p, tr: (tr.get_descriptor(A.PAT), tr.add_state(_dup_context_state(p)))),
+    ('descriptor:add_state(state-that-exists-in-mdib)', 'descriptor_transaction',
+     lambda p, tr: (tr.get_descriptor(A.NUM1), tr.add_state(p.mdib.states.descriptor_handle.get_one(A.NUM1).mk_copy()))),
     ('context:write_entity(state-deleted-from-entity)', 'context_state_transaction', _rej_context_delete_via_entity),
     ('context:add_state(duplicate-handle)', 'context_state_transaction',
      lambda p, tr: tr.add_state(_dup_context_state(p))),
@@ -310,8 +338,40 @@ def run_crash(case):
 
 
 # ------------------------------------------------------------------ (B) rejected calls / all-or-nothing
+def run_reject_swallowed(case):
+    """The rejected call's exception is caught inside the transaction body, the transaction then ends normally: what is
+    committed must equal what the same transaction commits without the call."""
+    _mode, idx, with_prior, _table = case
+    name, kind, call = REJECTS[idx]
+    raised = None
+    snaps = []
+    for with_call in (False, True):
+        walk = _build()
+        p = walk.provider
+        with getattr(p.mdib, kind)() as tr:
+            if with_prior:
+                PRIOR[kind](p, tr)
+            if with_call:
+                try:
+                    call(p, tr)
+                except Exception as ex:  # noqa: BLE001
+                    raised = type(ex).__name__
+        snaps.append((_snap(p), p, len(walk._tx)))
+    problems = []
+    if raised is None:
+        problems.append('call was not rejected')
+    else:
+        problems = ['rejected call left its mark on the commit: ' + x for x in canon.diff(snaps[0][0], snaps[1][0])]
+        problems += [f'scan: {x}' for x in canon.mdib_scan(snaps[1][1].mdib)]
+        if snaps[0][2] != snaps[1][2]:
+            problems.append(f'number of committed transactions differs: {snaps[0][2]} without the call, {snaps[1][2]} with it')
+    return name, raised, problems
+
+
 def run_reject(case):
     _mode, idx, with_prior, table = case
+    if table == 'reject-swallowed':
+        return run_reject_swallowed(case)
     name, kind, call = (REJECTS if table == 'reject' else ALL_OR_NOTHING)[idx]
     walk = _build()
     p = walk.provider
@@ -641,6 +701,10 @@ def run(ctx):
     for i in range(len(ALL_OR_NOTHING)):
         for prior in (False, True):
             cases.append(['reject', i, prior, 'all-or-nothing'])
+    for i, (name, _k, _c) in enumerate(REJECTS):
+        if name not in MULTI_CALL_REJECTS:
+            for prior in (False, True):
+                cases.append(['reject', i, prior, 'reject-swallowed'])
     iso = isolation_cases(depth)
     cases += [list(c) for c in iso]
     ctx.note('cases', {'crash': len(crash_cases()), 'rejects': 2 * (len(REJECTS) + len(ALL_OR_NOTHING)), 'isolation': len(iso),
